@@ -209,11 +209,16 @@ def run_resow(ctx, case):
                     or (case["mode"] == "batchsize" and sizes and max(sizes.values()) > case["val"]):
                 bad.append("sowing the same %d settings again%s (%s=%d) gave %d batches of sizes %s, the request means %d" % (
                     N, " after reaping" if case.get("after_reap") else "", case["mode"], case["val"], B, sorted(sizes.values()), wantB))
-        with quiet():
-            c3 = xyzpy.Crop(name="c7", parent_dir=tmp)
-            rep = (c3.num_batches, c3.num_sown_batches)
-        if rep != (B, B):
-            bad.append("after the re-sow the crop reports num_batches=%r num_sown_batches=%r, %d batch files exist" % (rep[0], rep[1], B))
+        try:
+            with quiet():
+                c3 = xyzpy.Crop(name="c7", parent_dir=tmp)
+                rep = (c3.num_batches, c3.num_sown_batches)
+            if rep != (B, B):
+                bad.append("after the re-sow the crop reports num_batches=%r num_sown_batches=%r, %d batch files exist" % (rep[0], rep[1], B))
+        except Exception as e:
+            bad.append("after the re-sow the crop cannot be loaded again: %r" % (e,))
+    for rec in contracts.drain():           # postconditions of choose_batch_settings evaluated by the two sows of this case
+        bad.append("%s: %s" % (rec["contract"], rec["msg"]))
     for msg in bad[:2]:
         ctx.violation(case, msg, dict(sig, oracle=" ".join(msg.split(" ")[:3])))
     ctx.rmtree(tmp)
@@ -279,6 +284,8 @@ def run_case(ctx, case):
         err = e
     if err is not None:
         ctx.violation(case, "sow raised %r" % (err,), dict(sig, **exc_sig(err)))
+        for rec in contracts.drain():
+            ctx.violation(case, "%s: %s" % (rec["contract"], rec["msg"]), dict(sig, oracle="contract"))
         ctx.rmtree(tmp)
         ctx.observe(case, nontrivial=False)
         return
